@@ -239,7 +239,7 @@ func compareOuts(pre, post *progen.Val, t *progen.T, p *progen.Program, where st
 			add("the directory at the derived location %s under outs/ is empty or cannot be read", strings.TrimPrefix(loc, ps))
 		}
 	}
-	if d.Mode == 0 {
+	if d.Mode == 0 || d.Mode == 7 {
 		if !strings.HasPrefix(np, ps+"/outs/") {
 			add("file output is not under outs/: %s", strings.TrimPrefix(np, ps))
 		}
@@ -417,7 +417,7 @@ func OutsCheck() {
 	}
 	fam := progen.OutsFamily(r.Thorough())
 	if !ev.IsWorker() {
-		r.Rule = "top-level pipelines returning each of 14 producer outputs alone (file type with extension, file, arrays and typed maps of files, struct / struct array / typed map of structs holding a file, 2-dimensional file array, typed map of file arrays, nested struct with an explicitly named member, string and untyped map holding a path, directory, plain int) and three combinations, plus a directory output together with a file output naming the file inside it (both declaration orders) x collection sizes {2,0,1,11} x leaf modes {file written, null, named but never written, relative symlink, file outside the pipestance} x explicit output names x mapped producer x mapped top-level call x pass-through sub-pipeline " +
+		r.Rule = "top-level pipelines returning each of 14 producer outputs alone (file type with extension, file, arrays and typed maps of files, struct / struct array / typed map of structs holding a file, 2-dimensional file array, typed map of file arrays, nested struct with an explicitly named member, string and untyped map holding a path, directory, plain int) and three combinations, plus a directory output together with a file output naming the file inside it (both declaration orders) x collection sizes {2,0,1,11} x leaf modes {file written, null, named but never written, relative symlink, file outside the pipestance, link chain, relative outside path, directory named with a trailing slash} x explicit output names x mapped producer x mapped top-level call x pass-through sub-pipeline " +
 			"(quick: at most 3 of these 6 dimensions off base) + 5 kinds of colliding output names + 5 map-key styles; each program runs to completion on the real runtime with real files, then VDRKill + PostProcess as mrp does; the outputs record before and after post-processing are walked in parallel by type: valid JSON, same shape, non-file values unchanged, every non-null file leaf recorded at an existing location under outs/ holding exactly the producer's bytes (self-describing content), distinct leaves at distinct locations, file-type extension kept. distinct = distinct parameter vectors; non-trivial = at least one file leaf was materialised"
 		r.Set("programs_in_family", len(fam))
 		r.RunWorkers(0)
